@@ -1,6 +1,8 @@
 import Driver.Parse
 import Driver.C10
 import EchoVerif.Model.WalIntegrity
+import EchoVerif.Model.WalLedger
+import EchoVerif.Generated.WalLedgerTables
 
 namespace Driver.C11
 open EchoVerif EchoVerif.Wal Driver
@@ -25,7 +27,7 @@ def natArgs (parts : List String) : Option (List Nat) := parts.mapM String.toNat
 
 /-- apply a structural edit `op` (token `name:arg:…`) to the base log's blocks; `donor` = blocks of the
     sibling log.  Unknown ops / out-of-range indices leave the log unchanged (same rule in the harness). -/
-def applyOp (op : String) (base donor : List (List DR)) : Except String (List DR) :=
+def applyOp {α : Type} (op : String) (base donor : List (List α)) : Except String (List α) :=
   let parts := op.splitOn ":"
   let name := parts.headD ""
   let flat := base.flatten
@@ -205,7 +207,7 @@ def metaH : P String := do
           | none => throw s!"bad op {op}"
           | some x => pure s!"mdig {(HExpr.h [.raw x]).render} man {manOut (some x) seg} led -"
       | "s" =>
-        match applyOp rest (blocksOf txs) [] with
+        match applyOp rest (blocksOf txs) ([] : List (List DR)) with
         | .error e => throw e
         | .ok recs =>
           pure s!"mdig {(HExpr.h [.raw manifest]).render} man {manOut (some manifest) (recs.flatMap encDR)} led -"
@@ -222,7 +224,149 @@ def metaH : P String := do
             pure s!"mdig - man - led {cls}"
       | _ => throw s!"bad op {op}"
 
+/-! ### C11.epoch — multi-epoch roots behind the writer-epoch ledger -/
+
+def lcfg : LedgerCfg where
+  magic := EchoVerif.Generated.WalLedgerTables.magic
+  domain := EchoVerif.Generated.WalLedgerTables.domain
+  version := EchoVerif.Generated.WalLedgerTables.version
+  retainedLimit := EchoVerif.Generated.WalLedgerTables.retainedLimit
+
+def freshLabels : FreshLabels :=
+  let l := EchoVerif.Generated.WalLedgerTables.freshLabels.map (fun s => s.toUTF8.toList)
+  { epoch := l.getD 0 [], fencing := l.getD 1 [], process := l.getD 2 [], host := l.getD 3 [], lease := l.getD 4 [] }
+
+structure Plan where
+  counts : List Nat
+  finActive : Bool
+  multi : Bool
+
+def parsePlan (t : String) : Except String Plan :=
+  match t.splitOn "-" with
+  | [cs, f, m] =>
+    match natArgs (cs.splitOn "."), f, m with
+    | some counts, "a", "m" => .ok ⟨counts, true, true⟩
+    | some counts, "a", "s" => .ok ⟨counts, true, false⟩
+    | some counts, "c", "m" => .ok ⟨counts, false, true⟩
+    | some counts, "c", "s" => .ok ⟨counts, false, false⟩
+    | _, _, _ => .error s!"bad plan {t}"
+  | _ => .error s!"bad plan {t}"
+
+/-- epoch 0 carries the spec's id; epoch i>0 = BLAKE3(id ‖ [i]) -/
+def epochId (base : Bytes) (i : Nat) : Bytes := if i = 0 then base else H (base ++ [UInt8.ofNat i])
+
+/-- the transactions of every epoch: the model writer per epoch, the chain threaded across epochs -/
+def buildGroups (s : Spec) (p : Plan) : Except String (List (List Tx)) := do
+  if p.counts.foldl (· + ·) 0 ≠ s.txs.length then throw "plan does not cover the transactions"
+  let mut out : List (List Tx) := []
+  let mut lsn := s.firstLsn
+  let mut pf := s.pf
+  let mut pc := s.pc
+  let mut rest := s.txs
+  let mut i := 0
+  for n in p.counts do
+    let sub : Spec := { s with
+      params := { s.params with writerEpoch := epochId s.params.writerEpoch i, segmentId := if p.multi then i + 1 else 1 },
+      firstLsn := lsn, pf := pf, pc := pc, txs := rest.take n }
+    rest := rest.drop n
+    let txs ← Driver.C10.buildLog sub
+    match txs.getLast? with
+    | some t =>
+      lsn := t.commit.lastLsn + 1
+      if s.chain then
+        pf := match t.frames.getLast? with | some f => f.digest cfg H | none => pf
+        pc := t.commit.commitDigest
+    | none => pure ()
+    out := out ++ [txs]
+    i := i + 1
+  pure out
+
+/-- segment files of a root: one per epoch (`multi`) or everything in segment 1 -/
+def taggedBlocks (p : Plan) (groups : List (List Tx)) : List (List (Nat × DR)) :=
+  (groups.zipIdx.map (fun (txs, j) => (blocksOf txs).map (fun b => b.map (fun r => (if p.multi then j else 0, r))))).flatten
+
+def regroup (nseg : Nat) (recs : List (Nat × DR)) : List Bytes :=
+  (List.range nseg).map (fun j => (recs.filter (fun r => r.1 == j)).flatMap (fun r => encDR r.2))
+
+def eErr : EErr → String
+  | .missingLedger => "missingLedger" | .unknownPrev => "unknownPrev" | .chainGap => "chainGap"
+  | .finalDigest => "finalDigest" | .lsnRegression => "lsnRegression" | .fencing => "fencing"
+  | .alreadyActive => "alreadyActive"
+
+def dErr : DErr → String
+  | .eof => "decode.eof" | .trailing => "decode.trailing" | .enumCode n c => s!"decode.enum.{n}.{c}"
+  | .embedded => "decode.embedded"
+
+def oErr : OErr → String
+  | .env e => lErr e
+  | .dec e => dErr e
+  | .version => "decode.magic"
+  | .epoch e => "epoch." ++ eErr e
+  | .store e => rErr e
+
+def h8 (b : Bytes) : String := bytesToHex (b.take 8)
+
+def epochH : P String := do
+  let op ← tok
+  let planTok ← tok
+  let ledger ← bytes
+  let s0 ← specP
+  let d0 ← optSpec
+  done
+  let s := { s0 with params := { s0.params with segmentId := 1 } }
+  let plan ← match parsePlan planTok with
+    | .ok p => pure p
+    | .error e => throw e
+  let groups ← match buildGroups s plan with
+    | .ok g => pure g
+    | .error e => throw e
+  let nseg := if plan.multi then groups.length else 1
+  let base := taggedBlocks plan groups
+  let donor ← match d0 with
+    | none => pure []
+    | some d =>
+      let d := { d with params := { d.params with segmentId := 1 } }
+      match buildGroups d plan with
+      | .ok g => pure (taggedBlocks plan g)
+      | .error e => throw e
+  let (segs, ledgerFile) ←
+    if op.startsWith "l-" then
+      let parts := ((op.splitOn "-").drop 1 |> String.intercalate "-").splitOn ":"
+      let honest := regroup nseg base.flatten
+      match parts.headD "", natArgs (parts.drop 1) with
+      | "del", some [] => pure (honest, (none : Option Bytes))
+      | "flip", some [p, b] => pure (honest, some (flipAt ledger p b))
+      | "trunc", some [n] => pure (honest, some (ledger.take n))
+      | _, _ => throw s!"bad op {op}"
+    else match applyOp op base donor with
+      | .ok recs => pure (regroup nseg recs, some ledger)
+      | .error e => throw e
+  let all := segs.flatMap (fun b => u64 b.length ++ b)
+  let opened := openStore cfg H lcfg ledgerFile segs
+  let openS := match opened with
+    | .ok _ => "ok"
+    | .error e => "err " ++ oErr e
+  let nextS := match opened with
+    | .error _ => "-"
+    | .ok l =>
+      match acquireFresh H lcfg freshLabels l 0 with
+      | .ok ep => s!"ok {h8 ep.id} {ep.startedAt} {match ep.prevId with | some i => h8 i | none => "-"} {match ep.prevFinal with | some i => h8 i | none => "-"}"
+      | .error e => "err epoch." ++ eErr e
+  let fsr := recoverFilesystemSegs cfg H segs .readOnly
+  let fsS := match fsr with
+    | .ok r => "ok " ++ longReport r
+    | .error e => "err " ++ rErr e
+  let doc : Doctor := match fsr with
+    | .error _ => .obstructed
+    | .ok r =>
+      match r.tail with
+      | .clean => .recoverable
+      | .wouldTruncateAll | .wouldTruncateAfter _ => .recoverableWithTail
+      | .truncatedAll | .truncatedAfter _ => .obstructed
+  pure s!"segs={segs.length} dig {(HExpr.h [.raw all]).render} open: {openS} ; next: {nextS} ; fs: {fsS} ; doc {doctorTok doc}"
+
 def handlers : List (String × (List String → String)) :=
-  [("C11.edit", runP edit), ("C11.flip", runP flip), ("C11.zero", runP zero), ("C11.meta", runP metaH)]
+  [("C11.edit", runP edit), ("C11.flip", runP flip), ("C11.zero", runP zero), ("C11.meta", runP metaH),
+   ("C11.epoch", runP epochH)]
 
 end Driver.C11
